@@ -8,7 +8,7 @@
    revisions only through comparisons — this is the "one monotone renaming of revisions".
    [proj_txn]/[proj_range] are the property's projection {Succeeded; the kvs of the range operations of
    the executed branch (key, value, mod revision); prev_kv where asked for; kvs order; Count; More}. *)
-From KB Require Import Model.Etcd Model.C16Cases Proofs.Etcd Proofs.EtcdSim Proofs.EtcdRead Proofs.EtcdHist Proofs.EtcdWatch.
+From KB Require Import Model.Etcd Model.C16Cases Proofs.Etcd Proofs.EtcdSim Proofs.EtcdRead Proofs.EtcdHist Proofs.EtcdWatch Proofs.EtcdLin Proofs.C16Oracle Proofs.C16Fin Proofs.EtcdRename.
 Local Open Scope Z_scope.
 
 (* ---- full statements (every history of the four shapes with zero/correct/stale expected revisions,
@@ -22,14 +22,16 @@ Print Assumptions C16_supported_full_refuted.
 
 (* ---- the complement of the findings, over all histories *)
 
-(* every history of in-scope requests from the empty store: the projected responses of the shim
-   equal the interpreter's, no request is rejected, and afterwards both stores list the same keys,
-   values and mod revisions in the same order *)
+(* every history of in-scope requests (the four transaction shapes; point and range reads at any revision from 0 to the
+   current one; counts) from the empty store: the projected responses of the shim equal the interpreter's, no request is
+   rejected, afterwards both stores list the same keys, values and mod revisions in the same order, and the interpreter's
+   MVCC store as of every revision q up to the current one is the backend's reading at q *)
 Theorem C16_supported : forall base qs,
   in_scope_run (b_init base) (e_init (Z.of_N base)) qs ->
   let '(sb', se', ps) := run_both (b_init base) (e_init (Z.of_N base)) qs in
   Forall (fun p => fst p = snd p) ps /\ (forall p, In p ps -> fst p <> PT None)
-  /\ map pk (e_cur se') = b_proj (b_kv sb') (b_rev sb').
+  /\ map pk (e_cur se') = b_proj (b_kv sb') (b_rev sb')
+  /\ (forall q, (q <= b_rev sb')%N -> map pk (hist_at (e_hist se') (Z.of_N q)) = b_proj (b_kv sb') q).
 Proof. exact supported_from_init. Qed.
 Print Assumptions C16_supported.
 
@@ -60,7 +62,8 @@ Theorem C16_delete_unguarded : forall sb se k lim y,
 Proof. exact sim_deleteu_live. Qed.
 Print Assumptions C16_delete_unguarded.
 
-(* reads at the latest revision: kvs in order with keys, values (also empty ones), mod revisions; Count; More *)
+(* reads: kvs in order with keys, values (also empty ones), mod revisions; Count; More.
+   First at the latest revision ... *)
 Theorem C16_get : forall sb se k lim, R sb se -> bounded sb -> k <> [] ->
   proj_range (shim_range sb (mkRange k [] lim 0 false false)) = proj_range (etcd_range se (mkRange k [] lim 0 false false)).
 Proof. exact sim_get. Qed.
@@ -71,6 +74,37 @@ Theorem C16_list : forall sb se a b limit,
   proj_range (shim_range sb (list_req a b limit)) = proj_range (etcd_range se (list_req a b limit)).
 Proof. exact sim_list. Qed.
 Print Assumptions C16_list.
+(* ... then at any revision z from 0 (= latest) to the current one.  The relation R carries the history clause (R_hist):
+   the interpreter's MVCC store as of a revision is the backend's reading at it — per key the newest object record at or
+   below the revision, unless it holds the reserved value.  [view se z] is the store etcd reads at z, [qof sb z] the read
+   revision the backend scans at.  The models have no compaction, so "z >= compacted" is "any z"; z above the current
+   revision is outside (ErrFutureRev in etcd); z = 1888 with a range end is the partition request (F7). *)
+Theorem C16_history_clause : forall sb se z cur, R sb se -> bounded sb -> 0 <= z <= Z.of_N (b_rev sb) ->
+  (z <= 0 -> cur = e_cur se) ->
+  store_at se cur z = Some (view se z) /\ esorted (view se z)
+  /\ map pk (view se z) = b_proj (b_kv sb) (qof sb z) /\ (qof sb z <= b_rev sb)%N /\ (0 < z -> qof sb z = Z.to_N z).
+Proof. exact view_eq. Qed.
+Print Assumptions C16_history_clause.
+Theorem C16_get_at : forall sb se k lim z, R sb se -> bounded sb -> k <> [] -> 0 <= z <= Z.of_N (b_rev sb) ->
+  proj_range (shim_range sb (mkRange k [] lim z false false)) = proj_range (etcd_range se (mkRange k [] lim z false false)).
+Proof. exact sim_get_at. Qed.
+Print Assumptions C16_get_at.
+Theorem C16_list_at : forall sb se a b limit z,
+  R sb se -> bounded sb -> a <> [] -> b <> [] -> b <> [0%N] -> bltb a b = true ->
+  0 <= z <= Z.of_N (b_rev sb) -> z <> partition_magic ->
+  limit + 1 < two63 -> (limit <= 0 \/ lenZ (e_range (view se z) a b) <= limit + 1) ->
+  proj_range (shim_range sb (list_req_at a b limit z)) = proj_range (etcd_range se (list_req_at a b limit z)).
+Proof. exact sim_list_at. Qed.
+Print Assumptions C16_list_at.
+(* and without the bound on the number of keys (finding F3 concerns Count only): the kvs — keys, values, mod revisions,
+   order — and More agree for every list, at any revision; [kvs_more] drops the Count *)
+Theorem C16_list_kvs_more : forall sb se a b limit z,
+  R sb se -> bounded sb -> a <> [] -> b <> [] -> b <> [0%N] -> bltb a b = true ->
+  0 <= z <= Z.of_N (b_rev sb) -> z <> partition_magic -> limit + 1 < two63 ->
+  kvs_more (proj_range (shim_range sb (list_req_at a b limit z))) = kvs_more (proj_range (etcd_range se (list_req_at a b limit z))).
+Proof. exact sim_list_kvs_more. Qed.
+Print Assumptions C16_list_kvs_more.
+(* counts: at the latest revision (a count carrying a past revision is finding F9, below) *)
 Theorem C16_count : forall sb se a b,
   R sb se -> bounded sb -> a <> [] -> b <> [] -> b <> [0%N] -> lenZ (e_range (e_cur se) a b) < two63 ->
   proj_range (shim_range sb (count_req a b)) = proj_range (etcd_range se (count_req a b)).
@@ -95,6 +129,13 @@ Print Assumptions C16_watch_prefix.
 Theorem C16_event_log_wf : forall sb se t, R sb se -> evs_ok sb -> evs_ok (fst (shim_txn sb t)).
 Proof. exact shim_txn_evs_ok. Qed.
 Print Assumptions C16_event_log_wf.
+(* ... and so is the other hypothesis of C16_watch_prefix, by every transaction of one of the shapes on a well-formed key:
+   with C16_supported_step (R), C16_event_log_wf (evs_ok) and this (keys_wf) the watch theorem applies after any in-scope
+   history whose keys are byte strings *)
+Theorem C16_keys_wf_step : forall sb t sh, canonical t = Some sh -> wf_bytes (shape_key sh) -> keys_wf sb ->
+  keys_wf (fst (shim_txn sb t)).
+Proof. exact shim_txn_keys_wf. Qed.
+Print Assumptions C16_keys_wf_step.
 
 (* ---- any other shape is rejected, never executed as something else *)
 
@@ -113,6 +154,32 @@ Theorem C16_unsupported : forall sb se t,
 Proof. exact unsupported_except. Qed.
 Print Assumptions C16_unsupported.
 
+Example C16_unsupported_inhabited :
+  let t := mkTxn [] [q_put kA v1 0] [] in
+  txn_wf t = true /\ recognised t = false /\ rejected t (b_init 10) (e_init 10).
+Proof. exact unsupported_example. Qed.
+
+(* the recognised-but-not-canonical class (finding F4), characterised: every request a recogniser accepts is executed
+   exactly as the canonical request of the shape it was taken for, built from the fields the recogniser reads
+   ([executed_as]: put key and value for a create; compared key, put value and lease, compared revision for an update;
+   deleted key and compared revision for a delete); a create whose put carries a flag is rejected.  So the shim's answer
+   to t is, by C16_supported, etcd's answer to [executed_as t], and the divergence of F4 is exactly the difference
+   between t and [executed_as t] as etcd reads them.  On a canonical request the translation keeps the shape. *)
+Theorem C16_recognised_executed_as : forall sb t, recognised t = true ->
+  match executed_as t with
+  | Some t' => shim_txn sb t = shim_txn sb t' /\ canonical t' <> None
+  | None => shim_txn sb t = (sb, TErr)
+  end.
+Proof. exact recognised_executed_as. Qed.
+Print Assumptions C16_recognised_executed_as.
+Theorem C16_executed_as_canonical : forall t sh, canonical t = Some sh ->
+  exists t', executed_as t = Some t' /\ canonical t' = Some sh.
+Proof. exact executed_as_canonical. Qed.
+Print Assumptions C16_executed_as_canonical.
+Example C16_executed_as_witness :
+  executed_as (mkTxn [q_cmp kB (UMod 0)] [q_put kA v2 0] [q_get kB 0]) = Some (q_update kB v2 (UMod 0) 0 0).
+Proof. exact executed_as_witness. Qed.
+
 (* a request no recogniser accepts leaves the state untouched *)
 Theorem C16_rejected_untouched : forall sb t, recognised t = false -> isCompact t = false -> shim_txn sb t = (sb, TErr).
 Proof. exact not_recognised. Qed.
@@ -124,37 +191,62 @@ Theorem C16_update_hostile : forall sb se k v u lease lim,
   rejected (q_update k v u lease lim) sb se.
 Proof. exact sim_update_hostile. Qed.
 Print Assumptions C16_update_hostile.
+Example C16_update_hostile_inhabited : rejected (q_update kA v1 (UMod (-1)) 0 0) (b_init 10) (e_init 10).
+Proof. exact hostile_example. Qed.
 
 (* ---- the findings, each as a witness on the model (replayed on the real code by the driver's corpus) *)
 Theorem C16_F1_unguarded_delete_missing :
   both (b_init 10) (e_init 10) (q_deleteu kA 0) = (Some (false, []), Some (true, [PRange []; PSkip]), [], []).
 Proof. exact refute_unguarded_missing. Qed.
+Print Assumptions C16_F1_unguarded_delete_missing.
 Theorem C16_F2_guarded_delete_rev0 :
   both (fst after_create_a) (snd after_create_a) (q_delete kA (UMod 0) 0) =
   (Some (true, [PSkip]), Some (false, [PRange [(kA, v1, 11)]]), [], [(kA, v1, 11)]).
 Proof. exact refute_guarded_zero. Qed.
+Print Assumptions C16_F2_guarded_delete_rev0.
 Theorem C16_F3_count_under_limit :
   let r := list_req kLo kHi 1 in
   proj_range (shim_range (fst three_keys) r) = Some ([(kA, v1, 11)], 2, true)
   /\ proj_range (etcd_range (snd three_keys) r) = Some ([(kA, v1, 11)], 3, true).
 Proof. exact refute_count_limit. Qed.
+Print Assumptions C16_F3_count_under_limit.
 Theorem C16_F4_recogniser_key :
   let t := mkTxn [q_cmp kB (UMod 0)] [q_put kA v2 0] [q_get kB 0] in
   canonical t = None /\ recognised t = true /\
   both (b_init 10) (e_init 10) t = (Some (true, [PSkip]), Some (true, [PSkip]), [(kB, v2, 11)], [(kA, v2, 11)]).
 Proof. exact refute_recogniser_key. Qed.
+Print Assumptions C16_F4_recogniser_key.
 Theorem C16_F5_compact :
   let t := mkTxn [mkCmp REqual TVersion compact_rev_key (UVersion 0) []] [q_put compact_rev_key v1 0] [q_get compact_rev_key 0] in
   recognised t = false /\ isCompact t = true /\
   both (b_init 10) (e_init 10) t =
   (Some (false, [PRange [(@nil N, @nil N, 0)]]), Some (true, [PSkip]), [], [(compact_rev_key, v1, 11)]).
 Proof. exact refute_compact. Qed.
+Print Assumptions C16_F5_compact.
 Theorem C16_F6_reserved_value :
   let t := q_create kA tombstone (UMod 0) 0 in
   let r := mkRange kA [] 0 0 false false in
   proj_range (shim_range (fst (shim_txn (b_init 10) t)) r) = Some ([], 0, false)
   /\ proj_range (etcd_range (fst (etcd_txn (e_init 10) 11 t)) r) = Some ([(kA, tombstone, 11)], 1, false).
 Proof. exact refute_reserved_value. Qed.
+Print Assumptions C16_F6_reserved_value.
+(* F7: a range read at revision 1888 is the private partition request *)
+Theorem C16_F7_partition_magic :
+  let r := mkRange kLo kHi 0 1888 false false in
+  exists x y, shim_range (mkB 5000 [] []) r = ROk 5000 [x; y] 2 false
+  /\ etcd_range (mkE 5000 5000 [] [] []) r = ROk 5000 [] 0 false.
+Proof. exact refute_partition_magic. Qed.
+Print Assumptions C16_F7_partition_magic.
+(* F9: a count carrying a past revision is answered at the latest one (the Count path passes key and end only) *)
+Theorem C16_F9_count_at_revision :
+  let t1 := q_create kA v1 (UMod 0) 0 in
+  let t2 := q_create kB v1 (UMod 0) 0 in
+  let r := mkRange kLo kHi 0 11 true false in
+  let sb := fst (shim_txn (fst (shim_txn (b_init 10) t1)) t2) in
+  let se := fst (etcd_txn (fst (etcd_txn (e_init 10) 11 t1)) 12 t2) in
+  proj_range (shim_range sb r) = Some ([], 2, false) /\ proj_range (etcd_range se r) = Some ([], 1, false).
+Proof. exact count_at_revision_witness. Qed.
+Print Assumptions C16_F9_count_at_revision.
 (* regression on the witness of the former finding C16-F8: a point read of a key whose value is empty returns the
    kv, as etcd does (the general statement is C16_get: it has no hypothesis on the value; values may be empty
    throughout C16_supported / C16_unsupported) *)
@@ -165,6 +257,118 @@ Example C16_empty_value_read :
   /\ proj_range (etcd_range (fst (etcd_txn (e_init 10) 11 t)) r) = Some ([(kA, [], 11)], 1, false).
 Proof. exact empty_value_read. Qed.
 
+(* ---- linearisation of conditional writes (the claim behind the C16Race case kind).
+   [gwrite k e t]: t is a create-if-absent of k (e = 0), a guarded update of k with expected mod revision e, or a guarded
+   delete with expected mod revision e <> 0.  [serial s nr ts] runs the list in the reference interpreter, one after the
+   other with consecutive revisions, and returns the Succeeded flags.  The list is arbitrary, so this is "any serial order".
+   The backend half of the claim under true concurrency is C01_no_double_success (two commits of one key at one compared
+   revision cannot both be applied). *)
+Theorem C16_linearises : forall s nr k e ts, Forall (gwrite k e) ts -> esorted (e_cur s) -> k <> [] -> e < nr ->
+  (count_true (serial s nr ts) <= 1)%nat.
+Proof. exact etcd_linearises. Qed.
+Print Assumptions C16_linearises.
+
+Theorem C16_linearises_exact : forall s nr k e t ts, Forall (gwrite k e) (t :: ts) -> esorted (e_cur s) -> k <> [] -> e < nr ->
+  cmp_holds s k e = true -> count_true (serial s nr (t :: ts)) = 1%nat.
+Proof. exact etcd_linearises_exact. Qed.
+Print Assumptions C16_linearises_exact.
+
+(* the oracle's C16Race clause accepts exactly one winner of each race: the counts of every pair of such serial runs whose
+   guard holds at the start (creates of an absent key; updates carrying the revision just read), and nothing else *)
+Theorem C16_race_oracle_image : forall s1 nr1 k e1 t1 ts1 s2 nr2 e2 t2 ts2 clients rounds,
+  Forall (gwrite k e1) (t1 :: ts1) -> esorted (e_cur s1) -> e1 < nr1 -> cmp_holds s1 k e1 = true ->
+  Forall (gwrite k e2) (t2 :: ts2) -> esorted (e_cur s2) -> e2 < nr2 -> cmp_holds s2 k e2 = true -> k <> [] ->
+  c16_oracle (C16Race clients rounds (N.of_nat (count_true (serial s1 nr1 (t1 :: ts1)))) (N.of_nat (count_true (serial s2 nr2 (t2 :: ts2))))) = None.
+Proof. exact race_oracle_image. Qed.
+Print Assumptions C16_race_oracle_image.
+Theorem C16_race_oracle_exact : forall clients rounds mc mu,
+  c16_oracle (C16Race clients rounds mc mu) = None <-> mc = 1%N /\ mu = 1%N.
+Proof. exact race_oracle_exact. Qed.
+Print Assumptions C16_race_oracle_exact.
+
+Example C16_race_inhabited :
+  serial (e_init 10) 11 race_creates = [true; false; false; false; false; false; false; false]
+  /\ Forall (gwrite race_key 0) race_creates /\ Forall (gwrite race_key 11) race_updates
+  /\ count_true (serial (fst (etcd_txn (e_init 10) 11 (q_create race_key [1%N] (UMod 0) 0))) 12 race_updates) = 1%nat.
+Proof. exact race_example. Qed.
+
+(* ---- the oracle is sound on valid cases.
+   [c16_strongb] (Model/C16Cases.v) evaluates, along the shim model's own run of the case, that every request is in the
+   scope of C16_supported (the four shapes with an expected revision between zero and the current one, no reserved value,
+   well-formed keys; reads at any revision up to the current one; counts at the latest); [c16_headersb] that every watch
+   message's header is the mod revision of its last event.  On such a case, if the shim model reproduces what was
+   observed (c16_check), the oracle — the reference interpreter replaying the observation under the projection, the
+   listing comparisons, the event comparison — accepts it: for every case kind, with no side condition beyond the
+   evaluated validity (also a valid prefix closed by one transaction the shim rejects with nothing stored is in this
+   class).  [c16_valid c] is [c16_strongb c = true /\ c16_headersb c = true]. *)
+Theorem C16_oracle_sound : forall c, c16_valid c -> c16_check c = true -> c16_oracle c = None.
+Proof. exact c16_oracle_sound. Qed.
+Print Assumptions C16_oracle_sound.
+Theorem C16_validb_sound : forall c, c16_valid c <-> c16_strongb c && c16_headersb c = true.
+Proof. exact c16_validb_decides. Qed.
+Print Assumptions C16_validb_sound.
+(* beyond full strength: a valid prefix closed by ONE arbitrary structurally valid transaction ([c16_validb] = full
+   strength, or that form) — whatever the closing transaction is (a shape in or out of scope, a request a recogniser takes
+   for a shape, the compaction transaction, a reserved value, something no recogniser accepts), if the shim model
+   reproduces the observation then the oracle agrees or reports the code of a listed finding (F1, F2, F4, F5, F6), never
+   the unlisted code 0.  This is what the claimed cases of a run are covered by (c16_checkv evaluates c16_validb).  No
+   such statement holds for arbitrary histories: after a step on which the two stores part silently the interpreter is
+   ahead and a later in-scope write is reported with code 0 (see the gaps). *)
+Theorem C16_oracle_listed : forall c, c16_validb c = true -> c16_headersb c = true -> c16_check c = true ->
+  listed_verdict (c16_oracle c).
+Proof. exact c16_oracle_listed. Qed.
+Print Assumptions C16_oracle_listed.
+Theorem C16_checkv_sound : forall c, c16_checkv (V true c) = true -> listed_verdict (c16_oraclev (V true c)).
+Proof. exact c16_checkv_sound. Qed.
+Print Assumptions C16_checkv_sound.
+Example C16_listed_inhabited :
+  c16_checkv (V true fin_case) = true /\ c16_strongb fin_case = false /\ c16_oracle fin_case = Some F_unguarded_missing.
+Proof. exact fin_case_checked. Qed.
+(* the watch headers against the model of the sender: whatever the cut of the events into non-empty batches, the sender's
+   messages pass c16_headersb and carry exactly the events; messages with the right headers and no empty batch are the
+   sender's messages for their own cut *)
+Theorem C16_sender_headers : forall cut, Forall (fun b => b <> []) cut ->
+  forallb header_ok (send_batches cut) = true /\ batches_events (send_batches cut) = concat cut.
+Proof. exact send_batches_ok. Qed.
+Print Assumptions C16_sender_headers.
+Theorem C16_headers_are_sender : forall bs, forallb header_ok bs = true -> Forall (fun b => snd b <> []) bs ->
+  bs = send_batches (map snd bs).
+Proof. exact headers_are_sender. Qed.
+Print Assumptions C16_headers_are_sender.
+Example C16_checkv_inhabited : c16_checkv (V true sample_case) = true /\ c16_oraclev (V true sample_case) = None
+  /\ c16_strongb (C16Hist 10 sample_ns [STxn (q_deleteu sample_key 0) TErr None] None None) = false.
+Proof. exact sample_case_checked. Qed.
+
+(* ---- parametric revisions are a renaming.  The interpreter is run with the revision the shim deals instead of etcd's
+   rev + 1.  For every strictly increasing f on revisions with f 0 = 0: running the interpreter on the renamed state with
+   the renamed revision and the renamed request (mod/create compare unions, range revisions; nested transactions) gives
+   the renamed state and the renamed response — transactions, ranges at any revision, watches.  So any strictly
+   increasing numbering of the writes is etcd's own numbering up to f, and the projection's revisions are compared
+   through f only. *)
+Theorem C16_interpreter_equivariant : forall f, (forall a b, a < b -> f a < f b) -> f 0 = 0 ->
+  forall s nr t, etcd_txn (rstate f s) (f nr) (rtxn f t) = (rstate f (fst (etcd_txn s nr t)), rtresp f (snd (etcd_txn s nr t))).
+Proof. exact etcd_txn_ren. Qed.
+Print Assumptions C16_interpreter_equivariant.
+Theorem C16_range_equivariant : forall f, (forall a b, a < b -> f a < f b) -> f 0 = 0 ->
+  forall s r, etcd_range (rstate f s) (rrange f r) = rrresp f (etcd_range s r).
+Proof. exact etcd_range_ren. Qed.
+Print Assumptions C16_range_equivariant.
+Theorem C16_watch_equivariant : forall f, (forall a b, a < b -> f a < f b) ->
+  forall s a b start, etcd_watch (rstate f s) a b (f start) = map (rwev f) (etcd_watch s a b start).
+Proof. exact etcd_watch_ren. Qed.
+Print Assumptions C16_watch_equivariant.
+Example C16_renaming_inhabited :
+  ((forall a b, a < b -> ren_example a < ren_example b) /\ ren_example 0 = 0)
+  /\ (let t1 := mkTxn [mkCmp REqual TMod [47; 97]%N (UMod 0) []] [OpPut (mkPut [47; 97]%N [49%N] 0 false false false)] [] in
+      let t2 := mkTxn [mkCmp REqual TMod [47; 97]%N (UMod 1) []] [OpPut (mkPut [47; 97]%N [50%N] 0 true false false)]
+                      [OpRange (mkRange [47; 97]%N [] 0 1 false false)] in
+      let s1 := fst (etcd_txn (e_init 0) 1 t1) in
+      let s1' := fst (etcd_txn (e_init 0) 11 (rtxn ren_example t1)) in
+      s1' = rstate ren_example s1
+      /\ etcd_txn s1' 13 (rtxn ren_example t2) = (rstate ren_example (fst (etcd_txn s1 2 t2)), rtresp ren_example (snd (etcd_txn s1 2 t2)))
+      /\ snd (etcd_txn s1' 13 (rtxn ren_example t2)) = TOk 13 true [RsPut 13 (Some (mkKv [47; 97]%N [49%N] 11 11 1 0))]).
+Proof. exact (conj ren_example_ok ren_example_run). Qed.
+
 (* ---- non-vacuity *)
 Example C16_scope_inhabited : in_scope_run (b_init 10) (e_init 10) sample_history.
 Proof. exact sample_in_scope. Qed.
@@ -174,7 +378,10 @@ Example C16_sample_outcomes :
    PT (Some (false, [PRange [(kA, v2, 13)]])); PT (Some (true, [PSkip]));
    PR (Some ([(kA, v2, 13)], 1, false)); PR (Some ([(kA, v2, 13)], 2, true)); PR (Some ([], 2, false));
    PT (Some (false, [PRange [(kA, v2, 13)]])); PT (Some (true, [PSkip])); PT (Some (false, [PRange []]));
-   PT (Some (true, [PRange [(kB, v1, 15)]; PSkip])); PT (Some (false, [PRange []])); PR (Some ([], 0, false))].
+   PT (Some (true, [PRange [(kB, v1, 15)]; PSkip])); PT (Some (false, [PRange []])); PR (Some ([], 0, false));
+   (* reads at past revisions 11, 12 (a burnt one), 15, 17 (limit 1), 14 *)
+   PR (Some ([(kA, v1, 11)], 1, false)); PR (Some ([(kA, v1, 11)], 1, false));
+   PR (Some ([(kA, v2, 13); (kB, v1, 15)], 2, false)); PR (Some ([(kB, v1, 15)], 1, false)); PR (Some ([], 0, false))].
 Proof. vm_compute. reflexivity. Qed.
 Example C16_relation_inhabited : R (b_init 10) (e_init 10).
 Proof. exact (R_init 10). Qed.
